@@ -125,7 +125,7 @@ ADDITIONS = {
     "C09": (" Added in session 4: the constructor is also evaluated on 41 model modules / 15 model imports under limits None, 1, 2, 3 with a model of networkx.DiGraph (C09.R6: the limited graph is the truncation of the full one, no self edges; two constructions with different limits on shared state each build their own graph); R6 explains violations with a concrete record and is the discharge of last resort for ledger-style constructions the flow rule cannot read (bounded; DESIGN 12.5).", " + finite-table evaluation of the constructor on model inputs (C09.R6; bounded; DESIGN 12.5)"),
     "C10": (" Added in session 4: with externals included, whether an import is retained depends only on pattern facts about the importee and its ancestors, whatever was filtered before (C10.R5 'an import is judged on its own': truth table over EXCL atoms in two processing orders; memo soundness decided semantically); no scan function mutates in place a value aliasing the result of a memoised function; excluded externals are not appended to the module list.", ""),
     "C11": (" Added in session 4: the filters built by have_name_containing are stored like those of have_name_matching (R3); the no-match error of the conversion reaches the caller of Rule.assert_applies unswallowed (R5); a search may not change in place the whole collection it is given when that collection is shared by the keys of a batch (R4).", ""),
-    "C12": (" Added in session 4: a rule and its dual, and 'should only' and the 'should' it decomposes into, ask their shared question with the same arguments as functions of (importers, importees) - constant options of one callee are compared by interpreting the callee under both option sets.", ""),
+    "C12": (" Added in session 4: a rule and its dual, and 'should only' and the 'should' it decomposes into, ask their shared question with the same arguments as functions of (importers, importees) - constant options of one callee are compared by interpreting the callee under both option sets. Added in session 5: the premise of the negation and decomposition laws - every requested key is present in the result of the three public graph queries and holds its own search result - is an obligation of C12.NEG itself (the [all keys] / [result per key] obligations of C11.R4 on those queries).", " + per-key completeness of the query results (C11.R4 obligations)"),
     "C13": (" Added in session 4: two independent tag searches whose slice is used are related on the path to a verdict; a bounded search never receives an end-relative negative bound; `with` over a repository context manager whose __exit__ can suppress (or contextlib.suppress) is a handler like `except`; option-conflict tables evaluated with next()/filter are read as decision tables; raising lookups are followed through helper objects and lookup tables with a raising fallback.", ""),
     "C14": (" Added in session 4: F-NAME.ORDER - a loop over module names sorted as plain strings must not stop, jump or forget names on a path where the current name is unrelated ('a' < 'a-b' < 'a.b': sub trees are contiguous only under a component-wise sort key); cuts whose relation rests on graph edges instead of the two names are unsafe; path-sensitive values of find / rfind indices; replace(p, x, 1) only under an established prefix relation.", ""),
     "C15": (" Added in session 4: producer / consumer protocols (chained generators of request records, ledgers materialised at the end) are fused into plain loops before the nodes-before-edges argument; instance memo tables and per-instance cache decorators are accepted only as unobservable memos (complete immutable key, value pure over construction-time state, copied or immutable on read).", ""),
